@@ -154,6 +154,7 @@ class Tracer:
         self.max_depth = max_depth
         self.follow_exceptions = follow_exceptions
         self._stack = []
+        self._ovr = {}
 
     # ------------------------------------------------------------------------------------------
     def trace(self, fi, args=None, upto=None):
@@ -598,7 +599,7 @@ class Tracer:
                 if not store and isinstance(b.ast, ast.Name) and b.ast.id == 'self' and fi.cls is not None:
                     # a bound method of the same class used as a value (callback): can be inlined / traced when it is called
                     t = self.repo.resolve(fi.cls.name, e.attr)
-                    if t is not None and not t.is_property:
+                    if t is not None and not t.is_property and (e.attr in self.inline_extra or not self._overridden_below(fi.cls.name, e.attr, False, t)):
                         v.closure = (t, None)
                 outs.append((q, v))
             return outs
@@ -789,6 +790,8 @@ class Tracer:
             cls = fi.cls.name if fi.cls is not None else None
             if r in ('self', 'cls') and cls:
                 t = self.repo.resolve(cls, f.attr, ayns=via)
+                if t is not None and f.attr not in self.inline_extra and t.qualname not in self.inline_extra and self._overridden_below(cls, f.attr, via, t):
+                    return None       # dynamic dispatch: a subclass may run its own version - not this function's code
                 return (t, 0, None) if t else None
             if r == 'super()' and cls:
                 t = self.repo.resolve(cls, f.attr, ayns=via, after=cls)
@@ -809,6 +812,19 @@ class Tracer:
                     if t.qualname in self.inline_extra:
                         return t, 1, None
         return None
+
+    def _overridden_below(self, cls, name, via, t):
+        key = (cls, name, via)
+        c = self._ovr.get(key)
+        if c is None:
+            c = False
+            for sub in self.repo.subclasses(cls, strict=True):
+                t2 = self.repo.resolve(sub, name, ayns=via)
+                if t2 is not None and t2 is not t:
+                    c = True
+                    break
+            self._ovr[key] = c
+        return c
 
     def _call(self, e, p, fi, depth):
         # evaluate callee and arguments
